@@ -135,7 +135,7 @@ class Repeat(Expression):
             # the checkpoint so it is given back if there's no next iteration.
             gen.writeln(f"if not {first}:")
             with gen.block():
-                gen.writeln(f"parse_trivia(state, {tmp_pairs})")
+                gen.writeln(f"skip_trivia(state, {tmp_pairs})")
             # Parse one item
             self.expression.generate(gen, matched_var, tmp_pairs)
 
